@@ -64,6 +64,10 @@ class ASTVisitor:
         """
         ctx_list = ctx.children
 
+        # Ruleset signatures collected for hierarchy/check_hierarchy belong to the script being
+        # parsed: start every parse without the ones of scripts parsed earlier in this process
+        de_ruleset_elements.clear()
+
         statements_nodes = []
         statements = [
             statement
